@@ -108,7 +108,8 @@ def cases(tier):
         for li in range(3):
             yield ('moves', n, li)
     for li in range(2):
-        yield ('stack', li)
+        for pat in range(len(STACK_PATTERNS)):
+            yield ('stack', li, pat)
     for n in range(1, sc['n_pivot'] + 1):
         for cfg in range(len(PIVOT_CFG)):
             for li in range(2):
@@ -117,7 +118,7 @@ def cases(tier):
                     yield ('pivot', n, cfg, li, (sh, nsh))
     for nl in range(1, sc['n_join'] + 1):
         for nr in range(1, sc['n_join'] + 1):
-            for route in ('columns', 'index', 'two-columns'):
+            for route in ('columns', 'index', 'two-columns', 'columns-shared-labels'):
                 for li in range(2):
                     yield ('join', nl, nr, route, li)
 
@@ -218,8 +219,26 @@ def flat(t):
     return t if isinstance(t, tuple) and t and isinstance(t[0], tuple) else ((t,) if not (isinstance(t, tuple) and t and isinstance(t[0], tuple)) else t)
 
 
+STACK_PATTERNS = [('float64', 'float64', 'float64'), ('<U2', '<U6', '<U3'), ('float32', 'float64', 'float32'), ('int8', 'int64', 'int8')]
+
+
+def stack_value(dt, j, i):
+    '''a value that needs the full width of its dtype'''
+    if dt == 'float64':
+        return 0.1 * (100 * j + i + 1)
+    if dt == 'float32':
+        return 100 * j + i + 0.5
+    if dt == 'int8':
+        return 10 * j + i
+    if dt == 'int64':
+        return 10 ** 12 + 100 * j + i
+    w = int(dt[2:])
+    return ('%d%d' % (j, i) + 'wxyz')[:w]
+
+
 def run_stack(case, ctx):
-    _, li = case
+    _, li, pat = case
+    pattern = STACK_PATTERNS[pat]
     # every non-empty subset (in tree order) of a 2x2 row hierarchy x 2-level columns
     row_pool = [('a', 1), ('a', 2), ('b', 1), ('b', 2)]
     col_pool = [('x', 'p'), ('x', 'q'), ('y', 'p')]
@@ -232,11 +251,11 @@ def run_stack(case, ctx):
             if not colsl:
                 continue
             n = len(rows)
-            arrays = [arr([100 * j + i + 0.5 for i in range(n)], 'float64') for j in range(len(colsl))]
+            arrays = [arr([stack_value(pattern[col_pool.index(t)], j, i) for i in range(n)], pattern[col_pool.index(t)]) for j, t in enumerate(colsl)]
             f, sig = mkframe(arrays, sf.IndexHierarchy.from_labels(colsl), sf.IndexHierarchy.from_labels(rows), li)
-            ctx.state(('stack', tuple(rows), tuple(colsl), sig))
+            ctx.state(('stack', tuple(rows), tuple(colsl), sig, pattern))
             base = cells(f)
-            info = dict(rows=rows, columns=colsl, layout=sig)
+            info = dict(rows=rows, columns=colsl, layout=sig, dtypes=pattern)
             for first, second in (('pivot_stack', 'pivot_unstack'), ('pivot_unstack', 'pivot_stack')):
                 ctx.transition(2)
                 ctx.nontriv(('stack', first, tuple(rows), tuple(colsl)))
@@ -268,7 +287,7 @@ def run_stack(case, ctx):
                 if not all(k in bc and eqv(bc[k], v) for k, v in base.items()):
                     ctx.violation(f'{first}.{second}|round-trip-labels', **info, got=sorted(map(repr, bc))[:8], expected=sorted(map(repr, base))[:8])
     ctx.outcome('stack')
-    ctx.sample({'family': 'stack', 'layout': li}, limit=1)
+    ctx.sample({'family': 'stack', 'layout': li, 'dtypes': pattern}, limit=1)
 
 
 # ---------------------------------------------------------------- (C) pivot
@@ -395,6 +414,9 @@ def run_join(case, ctx):
     alpha = (1, 2, 3)
     lidx = ['l%d' % i for i in range(nl)]
     ridx = ['r%d' % i for i in range(nr)]
+    if route == 'columns-shared-labels':
+        # both frames carry the same row labels (as two frames with default indices do): a label says nothing about which side a row is from
+        ridx = ['l%d' % i for i in range(nr)]
     for lk in itertools.product(alpha, repeat=nl):
         for rk in itertools.product(alpha, repeat=nr):
             if route == 'index' and (len(set(lk)) < nl or len(set(rk)) < nr):
@@ -413,7 +435,7 @@ def run_join(case, ctx):
             else:
                 left, sig = mkframe([arr(lk, 'int64'), arr(lk2, '<U1'), arr(lv, 'float64')], ['k', 'k2', 'lv'], lidx, li, name='L')
                 right, _ = mkframe([arr(rk, 'int64'), arr(rk2, '<U1'), arr(rv, 'int64')], ['k', 'k2', 'rv'], ridx, li, name='R')
-                if route == 'columns':
+                if route in ('columns', 'columns-shared-labels'):
                     kw = dict(left_columns='k', right_columns='k')
                     lkeys, rkeys = list(lk), list(rk)
                 else:
